@@ -2,6 +2,7 @@
    algebra's solutions or 'not implemented').  Strings are lists of code points: tag:a is
    [116;97;103;58;97], ... (this file is generated once from readable text, see the comments). *)
 From Sophia.C13 Require Import Model Maps BgpProofs Proofs NumModel NumProofs Eval Exists ExistsProofs ExistsSubst Nested NestedProofs.
+From Sophia.C13 Require Import Fresh FreshProofs.
 From Coq Require Import Permutation.
 
 (* ===== (1) the engine (after fixes c, d, e) computes the algebra ===== *)
@@ -472,3 +473,40 @@ Print Assumptions pmatch_depth.
 Print Assumptions engine_match_depth.
 Print Assumptions bgp_rec_unify.
 Print Assumptions nested_patterns_example.
+
+(* ===== blank nodes created by BNODE() and OFFSET / LIMIT windows (Fresh.v) ===== *)
+(* the condition checked on the labels of the engine's created nodes, row by row *)
+Check (fresh_ok_spec : forall (D : dataset) (rows : list (list str)),
+  fresh_ok D rows = true <->
+  NoDup (concat rows) /\ forall l, In l (concat rows) -> ~ In l (ds_bnodes D)).
+Check (fresh_ok_rows_disjoint : forall (D : dataset) (rows : list (list str)) (i j : nat) ri rj l,
+  fresh_ok D rows = true -> nth_error rows i = Some ri -> nth_error rows j = Some rj ->
+  In l ri -> In l rj -> i = j).
+(* Extend(P, v, BNODE()): one node per solution keeps the solutions apart, so DISTINCT merges none *)
+Check (extend_fresh_distinct : forall (v : str) (rows : list amap) (labels : list str),
+  NoDup labels -> NoDup (map (lookup v) (extend_fresh v rows labels))).
+Check (extend_fresh_NoDup : forall (v : str) (rows : list amap) (labels : list str),
+  NoDup labels -> NoDup (extend_fresh v rows labels)).
+Check (extend_fresh_length : forall (v : str) (rows : list amap) (labels : list str),
+  length labels = length rows -> length (extend_fresh v rows labels) = length rows).
+(* OFFSET s LIMIT n keeps min(n, N - s) solutions, the s-th to the (s+n-1)-th of the sequence below *)
+Check (select_slice_window : forall (L : exprlib) qm names (inner : pattern L) (s n : nat) gm b vs rows,
+  select L qm names inner gm b = Ok vs rows ->
+  exists rows', select L qm names (@Slice L inner s (Some n)) gm b = Ok vs rows' /\
+                length rows' = Nat.min n (length rows - s)%nat /\
+                forall k : nat, (k < n)%nat -> nth_error rows' k = nth_error rows (s + k)%nat).
+(* three equal solutions extended with three labels stay three; a label used twice is refused, and so
+   is a label of the dataset *)
+Example fresh_example :
+  length (extend_fresh [98] [[]; []; []] [[1]; [2]; [3]]) = 3%nat
+  /\ fresh_ok [((Bnode [120], Iri [112], Iri [111]), None)] [[[1]]; [[2]]; [[3]]] = true
+  /\ fresh_ok [((Bnode [120], Iri [112], Iri [111]), None)] [[[1]]; [[1]]; [[1]]] = false
+  /\ fresh_ok [((Bnode [120], Iri [112], Iri [111]), None)] [[[1]]; [[120]]] = false.
+Proof. repeat split; reflexivity. Qed.
+Print Assumptions fresh_ok_spec.
+Print Assumptions fresh_ok_rows_disjoint.
+Print Assumptions extend_fresh_distinct.
+Print Assumptions extend_fresh_NoDup.
+Print Assumptions extend_fresh_length.
+Print Assumptions select_slice_window.
+Print Assumptions fresh_example.
